@@ -25,6 +25,11 @@ ENGINE = {'name': 'pp',
          'list, peer, payload 0..3000 bytes; thorough tier: also 4096/5000/9000) combinations, 1/8 of them with a damaged header; every stream is run whole, header|payload, '
          'split at 3 random positions or (base headers, every 16th random one) at EVERY header position, byte by byte, and with 1/12/13/16/'
          'len-1/len/len+1/len+7/all bytes prefetched into the layer4 buffer; one correspondence case per distinct (config, stream); '
+         'peers include ZONED link-local addresses (*net.TCPAddr/*net.UDPAddr with Zone) inside and outside fe80::/10 and ::1/128 - containment is about the IP, '
+         'the zone is ignored by the reference predicate, the projection and the model; ROUTE LIST: every base header that declares IP addresses x 3 allow lists through a real '
+         'provisioned + compiled RouteList [match proxy_protocol -> handle proxy_protocol] [remote_ip|local_ip on the DECLARED address -> recorder] [tls byte matcher -> recorder] '
+         '(two variants in three) + fallback recorder, header cut at every position (1..4 bytes first included) and with two cuts after 1-4 bytes: the route taken, the bytes, the '
+         'addresses and the placeholders behind the router are checked; '
          'non-trivial = accepted parse, or non-empty allow list with a well-formed header; distinct = distinct Coq terms',
  'trusted_base': ['net.Pipe delivers each Write as one Read (segmentation is what the engine says it is)',
                   'the engine\'s own specification encoder and allow-list oracle (net/netip prefix containment with IPv4-mapped values unmapped)',
@@ -33,6 +38,7 @@ ENGINE = {'name': 'pp',
               'fmt.Sscanf("PROXY %s %s %s %d %d\\r\\n") on ASCII input; net.ParseIP (netip.parseIPv4Fields, parseIPv6); net.IP.String / netip RFC 5952 text',
               'modules/l4proxyprotocol/handler.go: Provision (rules; an allow entry is CIDR notation or a bare address = single-host range, the model takes the networks of that reference reading and CTidy compares them with h.rules), tidyRules (sort + in-place compaction), newConn, Handle, GetConn',
               'layer4/connection.go: WrapConnection (replacer keys), net.IPNet.Contains',
+              'layer4/routes.go RouteList.Compile is exercised (route taken after the handler) but not modelled here (C02)',
               'not modelled here: bufio/Connection.Wrap byte-stream layering (C01), header timeout deadlines, Caddyfile parsing (C15)'],
  'assumptions': ['v1 lines are ASCII: multi-byte Unicode blanks (U+0085, U+00A0, ...) that Sscanf also treats as spaces are not generated',
                  'sort.Slice returns a permutation of its input (order of equal keys unspecified): theorems hold for every such sort',
